@@ -107,6 +107,18 @@ impl Vocab {
     }
     pub fn title(&self, r: &mut Rng) -> String {
         if !self.titles.is_empty() && r.chance(1, 3) { return r.pick(&self.titles).clone(); }
+        // a title whose last word is a proper prefix of an earlier, longer word, optionally led by a function word
+        // ("The Cartoon Car"): the greedy assignment and the short-partial-match filter interact here
+        if r.chance(1, 14) {
+            let w = self.word(r);
+            let n = w.chars().count();
+            if n >= 4 {
+                let k = r.range(1, (n - 1) / 2 + 1);
+                let pre: String = w.chars().take(k).collect();
+                let lead = if !self.func.is_empty() && r.chance(2, 3) { format!("{} ", r.pick(&self.func)) } else { String::new() };
+                return format!("{}{} {}", lead, w, pre);
+            }
+        }
         let n = match r.below(10) { 0 => 0, 1..=3 => 1, 4..=6 => 2, 7..=8 => 3, _ => r.range(4, 7) };
         let mut s = String::new();
         if r.chance(1, 10) { s.push_str(r.pick_str(SEPS)); }
